@@ -23,6 +23,7 @@ import (
 	"google.golang.org/protobuf/proto"
 	"google.golang.org/protobuf/reflect/protoreflect"
 	"google.golang.org/protobuf/reflect/protoregistry"
+	"google.golang.org/protobuf/runtime/protoimpl"
 	"google.golang.org/protobuf/types/dynamicpb"
 	"google.golang.org/protobuf/verif/core"
 	"google.golang.org/protobuf/verif/gen"
@@ -33,7 +34,7 @@ import (
 func init() {
 	core.Register(&core.Check{
 		ID:     "C19",
-		Rule:   "cases: schedules, each in a FRESH child process of the race-detector build (first use happens once per process): 4-16 goroutines released by a barrier make first use, in different PRNG orders, of a PRNG pool of 48 message types (generated open/hybrid/opaque, legacy wrappers), their files (every L2 accessor and lookup map), enum and extension types, and the global registries (lookups, ranges, registration of dynamic types under unique and under deliberately conflicting names), with GOMAXPROCS in {1,2,4,16} and PRNG delays injected by the verif hooks at MessageInfo.initOnce / File.lazyInitOnce entry, under the lock and just before the done flag is published; monitors: race-detector report blocks (halt_on_error=0, counted from the log), recovered panics, every goroutine's descriptor digest (deep accessor snapshot) and behaviour digest (deterministic bytes and JSON of fixed content) vs the digests computed by a sequential process of the same binary, hook trace (contended initialisations, exactly one initialiser per MessageInfo / File), and the registry operation history (call/return stamps from one atomic clock) checked with porcupine against a per-name register-once model; distinct = distinct (schedule, goroutine, item); non-trivial = schedule with at least one contended initialisation",
+		Rule:   "cases: schedules, each in a FRESH child process of the race-detector build (first use happens once per process): 4-16 goroutines released by a barrier make first use, in different PRNG orders, of two mutually recursive struct-tag-only messages (even goroutines enter at the cycle's entry type, which declares ninety more fields after the cycle-closing one; odd goroutines arrive at the inner type after a PRNG delay) and of a PRNG pool of 48 message types (generated open/hybrid/opaque, legacy wrappers), their files (every L2 accessor and lookup map), enum and extension types, and the global registries (lookups, ranges, registration of dynamic types under unique and under deliberately conflicting names), with GOMAXPROCS in {1,2,4,16} and PRNG delays injected by the verif hooks at MessageInfo.initOnce / File.lazyInitOnce entry, under the lock and just before the done flag is published; monitors: race-detector report blocks (halt_on_error=0, counted from the log), recovered panics, every goroutine's descriptor digest (deep accessor snapshot) and behaviour digest (deterministic bytes and JSON of fixed content) vs the digests computed by a sequential process of the same binary, hook trace (contended initialisations, exactly one initialiser per MessageInfo / File), and the registry operation history (call/return stamps from one atomic clock) checked with porcupine against a per-name register-once model; distinct = distinct (schedule, goroutine, item); non-trivial = schedule with at least one contended initialisation",
 		Assume: []string{"the Go race detector", "porcupine v1.3.0 (linearizability checker)", "digests of a single-goroutine process as the sequential reference"},
 		Batches: func(tier string) []core.Batch {
 			n := 4
@@ -291,6 +292,30 @@ func C19Child(arg string) int {
 				types[n] = mkType(n)
 			}
 			start.Wait()
+			// first use of two mutually recursive struct-tag-only messages: even goroutines
+			// start at the cycle's entry, odd ones arrive at the inner type a little later
+			func() {
+				defer func() {
+					if x := recover(); x != nil {
+						mu.Lock()
+						rep.Panics = append(rep.Panics, fmt.Sprintf("g%d struct-tag cycle: %v", g, x))
+						mu.Unlock()
+					}
+				}()
+				first, second := any(&C19CycA{}), any(&C19CycB{})
+				if g%2 == 1 {
+					first, second = second, first
+					if concurrent {
+						delay(2500)
+					}
+				}
+				for _, v := range []any{first, second} {
+					mt := protoimpl.X.ProtoMessageV2Of(v).ProtoReflect().Type()
+					d, n := c19Digest(mt)
+					digs[string(mt.Descriptor().FullName())] = d
+					firstUse.Add(int64(n))
+				}
+			}()
 			for k, idx := range order {
 				mt := pool[idx]
 				func() {
@@ -507,6 +532,15 @@ func runC19(c *core.Ctx, b core.Batch) {
 					if mt := gen.TypeByName(item); mt != nil {
 						want, _ = c19Digest(mt)
 						refDigest[item] = want
+					} else {
+						// the struct-tag-only cycle types, derived here by one goroutine
+						for _, v := range []any{&C19CycA{}, &C19CycB{}} {
+							if mt := protoimpl.X.ProtoMessageV2Of(v).ProtoReflect().Type(); string(mt.Descriptor().FullName()) == item {
+								want, _ = c19Digest(mt)
+								refDigest[item] = want
+								c.Count("struct_tag_cycle_reference_digests")
+							}
+						}
 					}
 				}
 				c.Count("digests_compared")
